@@ -153,6 +153,33 @@ async def _scenario(sc):
             if idx in cb_raise:
                 raise RuntimeError("callback failure injected by the harness")
 
+        # the callback handed to the library: an `async def`, or another callable of the documented type
+        # Callable[..., Awaitable[None]] that is NOT literally a coroutine function
+        shape = sc.get("cb_shape") or "async-def"
+        if shape == "lambda":
+            cb_given = lambda p, t, m: cb(p, t, m)                    # noqa: E731
+        elif shape == "callable-object":
+            class _Cb:
+                async def __call__(self, p, t, m):
+                    await cb(p, t, m)
+            cb_given = _Cb()
+        elif shape == "decorated":
+            import functools
+
+            def plain(fn):
+                @functools.wraps(fn)
+                def wrapper(*a, **k):
+                    return fn(*a, **k)
+                return wrapper
+            cb_given = plain(cb)
+        elif shape == "partial":
+            import functools
+
+            async def cb4(_tag, p, t, m):
+                await cb(p, t, m)
+            cb_given = functools.partial(cb4, "call-1")
+        else:
+            cb_given = cb
         cancel = sc.get("cancel")
         tok = sm.CancellationToken() if (cancel is not None or sc.get("idle_token")) else None
         loop = asyncio.get_running_loop()
@@ -247,7 +274,7 @@ async def _scenario(sc):
             try:
                 r = await sm.send_message(in_recv, out_send, "tools/call", copy.deepcopy(materialise(sc.get("params"))),
                                           timeout=sc["D"] * TICK, message_id=me,
-                                          cancellation_token=tok, progress_callback=cb if has_cb else None)
+                                          cancellation_token=tok, progress_callback=cb_given if has_cb else None)
                 if isinstance(r, dict) and set(r) == {"tok"}:
                     result["out"] = ("ret", r["tok"])
                 else:
@@ -510,6 +537,7 @@ def scenario_case(sc):
             **({"debug_log": True} if sc.get("debug_log") else {}),
             **({"closed_before_call": True} if sc.get("closed_before_call") else {}),
             **({"idle_token": True} if sc.get("idle_token") else {}),
+            **({"cb_shape": sc["cb_shape"]} if sc.get("cb_shape") else {}),
             "arrivals": [[t, list(m)] for t, m in sc["arrivals"]]}
 
 
